@@ -189,6 +189,10 @@ func (e *Engine) modelDraws() []*Draw {
 
 // ---------------------------------------------------------------- path driver
 
+// development aid (-pathstats K): histogram of paths over their first K explicit choices
+var pathStatsK int
+var pathStats = map[string]int{}
+
 func (e *Engine) runPath(entry *ssa.Function, prefix []int) {
 	sh := e.sh
 	e.prefix, e.depth, e.steps = prefix, 0, 0
@@ -211,6 +215,16 @@ func (e *Engine) runPath(entry *ssa.Function, prefix []int) {
 		sh.mu.Lock()
 		defer sh.mu.Unlock()
 		sh.res.Paths++
+		if pathStatsK > 0 {
+			key, n := "", 0
+			for _, d := range e.draws {
+				if d.Kind == "choose" && n < pathStatsK {
+					key += fmt.Sprintf("%v/%s ", d.Val, d.Name)
+					n++
+				}
+			}
+			pathStats[key]++
+		}
 		if completed {
 			sh.res.Completed++
 			if len(sh.res.Samples) < 3 && len(e.draws) > 0 {
@@ -530,6 +544,7 @@ func main() {
 	genUn := flag.String("gen-unions", "", "write the generated union-dispatch harness to this file and exit")
 	genEq := flag.String("gen-equals", "", "write generated Equals harness files into this directory and exit")
 	modPath := flag.String("modpath", "verifgen", "module path of the generated code")
+	flag.IntVar(&pathStatsK, "pathstats", 0, "development aid: print a histogram of paths over their first K explicit choices")
 	flag.Parse()
 	if *genEq != "" {
 		genEquals(*dir, strings.Split(*pkgPat, ","), *genEq, *genList, *modPath)
@@ -635,6 +650,19 @@ func main() {
 		o.Results = append(o.Results, res)
 		fmt.Fprintf(os.Stderr, "symgo: %-40s paths=%d completed=%d events=%d aborts=%d bounds=%d queries=%d wall=%.1fs %s\n",
 			name, res.Paths, res.Completed, len(res.Events), sumMap(res.Aborts), sumMap(res.Bounds), res.Queries, res.WallS, res.Incomplete)
+		if pathStatsK > 0 {
+			var keys []string
+			for k := range pathStats {
+				keys = append(keys, k)
+			}
+			sort.Slice(keys, func(i, j int) bool { return pathStats[keys[i]] > pathStats[keys[j]] })
+			for i, k := range keys {
+				if i < 40 {
+					fmt.Fprintf(os.Stderr, "  pathstats %8d  %s\n", pathStats[k], k)
+				}
+			}
+			pathStats = map[string]int{}
+		}
 	}
 	raw, _ := json.MarshalIndent(o, "", " ")
 	if *out == "" {
